@@ -1065,6 +1065,13 @@ func suiteVtt(R *runner, r *rng) {
 		default:
 			o.Impl = (&enc{}).n(0).bytes(buf.Bytes()).String()
 			h["written"] = buf.String()
+			// the decoding oracles are stated for maps keyed by identifier without nil values (what subsFromVttDoc builds);
+			// maps with other keys / nil values go to the model comparison only (suiteVttKeyed, harness/vtt_keyed.go)
+			if !vttMapsByID(s) {
+				R.count("vtt.write.not_keyed_by_id")
+				break
+			}
+			R.count("vtt.write.decoding_oracles")
 			dec, derr := decodeVtt(buf.Bytes())
 			if derr != nil {
 				o.Oracle, o.Sig = "independent decoder rejects the writer's output: "+derr.Error(), "vtt-write-decoder"
@@ -1414,9 +1421,15 @@ func encVdocIn(e *enc, s *astisub.Subtitles) {
 			e.n(1).i(int64(sa.WebVTTLines)).str(sa.WebVTTRegionAnchor).str(sa.WebVTTScroll).str(sa.WebVTTViewportAnchor).str(sa.WebVTTWidth)
 		}
 	}
+	// the maps are sent BY KEY: a key, then 0 for a nil value or 1 and the value (whose ID need not be the key)
 	for _, k := range rk {
 		rg := s.Regions[k]
-		e.str(k).str(rg.ID)
+		e.str(k)
+		if rg == nil {
+			e.n(0)
+			continue
+		}
+		e.n(1).str(rg.ID)
 		encRa(rg.InlineStyle)
 		if rg.Style != nil {
 			encRa(rg.Style.InlineStyle)
@@ -1432,6 +1445,11 @@ func encVdocIn(e *enc, s *astisub.Subtitles) {
 	e.n(len(sk))
 	for _, k := range sk {
 		e.str(k)
+		if s.Styles[k] == nil {
+			e.n(0)
+			continue
+		}
+		e.n(1)
 		if s.Styles[k].InlineStyle == nil {
 			e.n(0)
 		} else {
